@@ -1,4 +1,4 @@
 SPECIFICATION Spec
 CONSTANTS Full = TRUE
-INVARIANTS TypeOK RejectIffBadMetadata AccessorsIdentity CastInjective ParsedValidates NoEarlyStop
+INVARIANTS TypeOK RejectIffBadMetadata AccessorsIdentity CastInjective ParsedValidates NoEarlyStop SizeConsistent AtLimitSurvives OverLimitRefused EndStageMatchesExpected
 CHECK_DEADLOCK FALSE
